@@ -17,7 +17,9 @@ TIMING_COND = [P + 'timing.py:After.*', P + 'timing.py:Before.*', P + 'timing.py
 PINS = {
     'C01': KERNEL + [P + 'notification.py:postpone', P + 'notification.py:suspend'] + TIMING_COND +
            [P + 'task.py:Task.__init__', P + 'context.py:Scope.do', 'usim/__init__.py:run'],
-    'C02': KERNEL + NOTIF + [B + 'tracked.py:Tracked.*', B + 'tracked.py:AsyncComparison.*', P + 'condition.py:*'],
+    'C02': KERNEL + NOTIF + [B + 'tracked.py:Tracked.*', B + 'tracked.py:AsyncComparison.*', P + 'condition.py:*'] + TIMING_COND +
+           [P + 'context.py:Scope.__init__', P + 'context.py:Scope.do', P + 'context.py:Scope._close_children',
+            P + 'context.py:Scope._close_volatile', P + 'context.py:Scope._await_children'],
     'C03': KERNEL + NOTIF + [P + 'condition.py:Condition.*', P + 'task.py:*', P + 'context.py:*'] + TIMING_COND,
     'C04': [P + 'context.py:*', P + 'task.py:*'],
     'C05': [P + 'context.py:*', P + 'task.py:Task.__init__', P + 'concurrent_exception.py:Concurrent.__new__',
